@@ -42,6 +42,7 @@
 #include <linux/futex.h>
 #include <map>
 #include <poll.h>
+#include <queue>
 #include <set>
 #include <sys/syscall.h>
 #include <sys/wait.h>
@@ -468,6 +469,78 @@ static std::string oracle_text()
 }
 
 // ---------------------------------------------------------------------------
+// round 3: use of the library BEFORE main() (static-initialisation order).
+// An object with the earliest user init priority runs the library from its
+// constructor - system lock incl. nesting/save/restore, a wait queue with a
+// REAL second thread parked and woken, safe_queue, event, semaphore - and keeps
+// what it saw; op `p premain` reports it later.  The library's own statics
+// (recursive mutex, thread_local count) must be usable at that time.
+// ---------------------------------------------------------------------------
+struct PreMain
+{
+    char text[256];
+    PreMain()
+    {
+        int a, b, c2, d, e;
+        system_lock(); system_lock(); a = syslock_counter();
+        system_unlock(); b = syslock_counter();
+        syslock_save_pair sv = system_lock_save(); c2 = syslock_counter();
+        system_lock_restore(sv); d = syslock_counter();
+        system_unlock(); e = syslock_counter();
+        igris::dlist_base head;
+        unwait_one(&head, 5);
+        unwait_all(&head, 6);
+        void *fut = nullptr;
+        std::thread th([&]() { wait_current_schedee(&head, 0, &fut); });
+        for (;;)
+        {
+            system_lock();
+            size_t n = head.size();
+            system_unlock();
+            if (n == 1) break;
+            timespec ts = {0, 100000};
+            nanosleep(&ts, nullptr);
+        }
+        unwait_one(&head, 77);
+        th.join();
+        igris::safe_queue<long> q;
+        q.push(7); q.push(8);
+        long g = q.pop();
+        long z = (long)q.size();
+        igris::event ev;
+        int s1 = ev.signal(), i1 = ev.isset();
+        ev.wait();
+        int r1 = ev.reset(), i2 = ev.isset();
+        igris::semaphore sm(1);
+        sm.wait(); int v0 = sm.getvalue();
+        sm.post(); int v1 = sm.getvalue();
+        snprintf(text, sizeof text, "premain lock=%d,%d,%d,%d,%d save=%d fut=%ld wq=%d q=%ld,%ld ev=%d,%d,%d,%d sem=%d,%d",
+                 a, b, c2, d, e, (int)sv.count, (long)(intptr_t)fut, (int)head.size(), g, z, s1, i1, r1, i2, v0, v1);
+    }
+};
+static PreMain premain __attribute__((init_priority(101)));
+static const char *PREMAIN_EXPECT = "premain lock=2,1,0,1,0 save=1 fut=77 wq=0 q=7,1 ev=1,1,1,0 sem=0,1";
+
+// constants / widths of the compiled code that the model embeds (op `k consts`)
+struct SqMirror // layout of igris::safe_queue<long> (its members are private)
+{
+    std::queue<long> queue;
+    igris::semaphore sem;
+};
+static_assert(sizeof(SqMirror) == sizeof(igris::safe_queue<long>), "igris::safe_queue layout changed");
+static std::string consts_text()
+{
+    igris::safe_queue<long> q;
+    int sem0 = ((SqMirror *)&q)->sem.getvalue(); // initial value of safe_queue's semaphore (model: init.sem = 1)
+    syslock_save_pair sp = {0, 0};
+    waiter wt = {};
+    char b[200];
+    snprintf(b, sizeof b, "consts sem0=%d counter=%zu savecount=%zu future=%zu signed=%d", sem0, sizeof(decltype(syslock_counter())),
+             sizeof(sp.count), sizeof(wt.future), (int)std::is_signed<decltype(syslock_counter())>::value);
+    return b;
+}
+
+// ---------------------------------------------------------------------------
 // programs
 // ---------------------------------------------------------------------------
 struct Op
@@ -620,6 +693,20 @@ static bool parse_case(const std::vector<std::string> &w, Case &c, std::vector<l
 // ---------------------------------------------------------------------------
 static void run_case(const std::vector<std::string> &w, hv::out &o)
 {
+    if (w.size() == 2 && w[0] == "p")
+    {
+        o.result = premain.text;
+        if (o.result != PREMAIN_EXPECT)
+            o.fail(std::string("the library used before main() behaved differently: expected `") + PREMAIN_EXPECT + "`");
+        o.tag("premain");
+        return;
+    }
+    if (w.size() == 2 && w[0] == "k")
+    {
+        o.result = consts_text();
+        o.tag("consts");
+        return;
+    }
     Case &c = *new Case(); // leaked on purpose when threads stay blocked
     std::vector<long> init;
     std::string sched;
@@ -1572,6 +1659,45 @@ static void gen3(hv::rng &r, bool thorough)
     // two of its steps; a signalled waiter returns and destroys its stack frame -
     // waiter, list node, event - while the waker goes on to the next waiter).
     // Only order-independent output is compared; the oracles and TSan judge.
+    printf("p premain\n");
+    printf("k consts\n");
+    // --- the "prioritised one" clause: EVERY combination of priorities and arrival
+    // orders of 2..4 waiters; the waiters enqueue in the given order (3 points each:
+    // lock, enqueue, unlock), then one thread calls unwait_one k times with distinct
+    // futures: who got which future is the service order (judged by the reference deque)
+    for (int k = 2; k <= 4; k++)
+    {
+        std::vector<int> perm;
+        for (int t = 0; t < k; t++) perm.push_back(t);
+        long idx = 0;
+        do
+        {
+            for (int mask = 0; mask < (1 << k); mask++, idx++)
+            {
+                if (k == 4 && !thorough && idx % 6 != 0) continue;
+                std::string progs, sc;
+                for (int t = 0; t < k; t++) progs += std::string(t ? "/" : "") + "W" + ((mask >> t) & 1 ? "1" : "0");
+                progs += "/";
+                for (int i = 0; i < k; i++) progs += std::string(i ? "," : "") + "O" + std::to_string(i + 1);
+                for (int t : perm) sc += std::string(3, '0' + t);
+                emit_case(progs, "", sc);
+            }
+        } while (std::next_permutation(perm.begin(), perm.end()));
+    }
+    // repeated waits of ONE thread with changed priority between the calls
+    for (const char *pg : {"W1,W0/W0,W1/O1,O2,O3,A4", "W0,W1,W0/W1/O1,O2,A3,A4"})
+        for (int k = 0; k < (thorough ? 400 : 30); k++)
+            emit_case(pg, "", rand_sched(r, step_counts(pg), (int)r.below(3)));
+    // nesting depth 9 = the deepest the library admits (assert(count < 10)), a contender at depth 9, 5, 1
+    {
+        std::string nest;
+        for (int i = 0; i < 9; i++) nest += "L,";
+        for (int i = 0; i < 9; i++) nest += std::string("U") + (i < 8 ? "," : "");
+        emit_case(nest + "/L,U", "", "0000000001000010000101");
+        emit_case("L,L,L,L,L,L,L,L,L,S,R,U,U,U,U,U,U,U,U,U/L,U", "", "00000000010101");
+        for (int k = 0; k < (thorough ? 100 : 6); k++)
+            emit_case(nest + "/L,U", "", rand_sched(r, step_counts(nest + "/L,U"), (int)r.below(3)));
+    }
     g_kind = "u";
     for (const char *pg : {"W0/W0/A9", "W0/W0/W0/A9", "W1/W0/W1/A9"})
     {
